@@ -92,6 +92,18 @@ var coseAlgSignatureAlgMap = map[cose.Algorithm]signature.Algorithm{
 	cose.AlgorithmES512: signature.AlgorithmES512,
 }
 
+// reservedHeaderLabels are the protected headers defined by the specification;
+// they cannot be used as extended attribute keys.
+var reservedHeaderLabels = []any{
+	cose.HeaderLabelAlgorithm,
+	cose.HeaderLabelCritical,
+	cose.HeaderLabelContentType,
+	headerLabelExpiry,
+	headerLabelSigningScheme,
+	headerLabelSigningTime,
+	headerLabelAuthenticSigningTime,
+}
+
 // Map of signingScheme to signingTime header label
 var signingSchemeTimeLabelMap = map[signature.SigningScheme]string{
 	signature.SigningSchemeX509:                 headerLabelSigningTime,
@@ -479,6 +491,13 @@ func generateProtectedHeaders(req *signature.SignRequest, protected cose.Protect
 	for _, elm := range req.ExtendedSignedAttributes {
 		if _, ok := protected[elm.Key]; ok {
 			return &signature.InvalidSignRequestError{Msg: fmt.Sprintf("%q already exists in the protected header", elm.Key)}
+		}
+		if contains(reservedHeaderLabels, elm.Key) {
+			// a header defined by the specification that is not set yet would
+			// be overwritten later (crit, content type), silently dropped on
+			// verification (the other signing scheme's time header) or
+			// smuggled in (an expiry that was not requested)
+			return &signature.InvalidSignRequestError{Msg: fmt.Sprintf("%q is a reserved header and cannot be used as an extended attribute key", elm.Key)}
 		}
 		if elm.Critical {
 			crit = append(crit, elm.Key)
